@@ -97,18 +97,32 @@ struct Mem {
     bin_cands: Vec<String>,
     dl_cands: Vec<String>,
     sup_cands: Vec<String>,
+    /// what `get_dyld_shared_cache_paths` answers
+    dyld_caches: Vec<String>,
+    /// names in `debug_cands` / `bin_cands` that are offered as `CandidatePathInfo::InDyldCache`
+    in_dyld: std::collections::HashSet<String>,
+}
+const DYLIB_PATH: &str = "/usr/lib/libverif.dylib";
+impl Mem {
+    fn cand(&self, n: &str) -> CandidatePathInfo<Loc> {
+        if self.in_dyld.contains(n) {
+            CandidatePathInfo::InDyldCache { dyld_cache_path: Loc(n.to_string()), dylib_path: DYLIB_PATH.to_string() }
+        } else {
+            CandidatePathInfo::SingleFile(Loc(n.to_string()))
+        }
+    }
 }
 impl FileAndPathHelper for Mem {
     type F = Bytes;
     type FL = Loc;
     fn get_candidate_paths_for_debug_file(&self, _: &LibraryInfo) -> FileAndPathHelperResult<Vec<CandidatePathInfo<Loc>>> {
-        Ok(self.debug_cands.iter().map(|n| CandidatePathInfo::SingleFile(Loc(n.clone()))).collect())
+        Ok(self.debug_cands.iter().map(|n| self.cand(n)).collect())
     }
     fn get_candidate_paths_for_binary(&self, _: &LibraryInfo) -> FileAndPathHelperResult<Vec<CandidatePathInfo<Loc>>> {
-        Ok(self.bin_cands.iter().map(|n| CandidatePathInfo::SingleFile(Loc(n.clone()))).collect())
+        Ok(self.bin_cands.iter().map(|n| self.cand(n)).collect())
     }
     fn get_dyld_shared_cache_paths(&self, _: Option<&str>) -> FileAndPathHelperResult<Vec<Loc>> {
-        Ok(vec![])
+        Ok(self.dyld_caches.iter().map(|n| Loc(n.clone())).collect())
     }
     fn get_candidate_paths_for_gnu_debug_link_dest(&self, _: &Loc, _: &str) -> FileAndPathHelperResult<Vec<Loc>> {
         Ok(self.dl_cands.iter().map(|n| Loc(n.clone())).collect())
@@ -216,6 +230,9 @@ fn materialize(r: &str) -> Option<Arc<Vec<u8>>> {
         let mut v = d.to_vec();
         v.resize(v.len() + n, fill);
         Arc::new(v)
+    } else if let Some(inner) = base.strip_prefix("dyld:") {
+        // the file `<inner>` offered as a dyld shared cache (`CandidatePathInfo::InDyldCache` / a cache path)
+        materialize(inner)?
     } else if let Some(inner) = base.strip_prefix("idx:") {
         // the `.symindex` that `BreakpadIndexCreator` (the code `ensure_symindex` runs) builds from `<base>`
         let d = materialize(inner)?;
@@ -437,6 +454,7 @@ fn err_kind(e: &Error) -> String {
         Error::NoMatchMultiArch(_) => "fat-nomatch".into(),
         Error::NoDisambiguatorForFatArchive(_) => "fat-nodisamb".into(),
         Error::EmptyFatArchive => "fat-empty".into(),
+        Error::NoCandidatePathForDyldCache => "no-dyld-cache".into(),
         Error::NoCandidatePathForDebugFile(_) | Error::NoCandidatePathForBinary(..) => "no-candidates".into(),
         Error::NotEnoughInformationToIdentifyBinary | Error::NotEnoughInformationToIdentifySymbolMap => "not-enough-info".into(),
         Error::NoSuccessfulCandidate(es) => {
@@ -576,13 +594,34 @@ fn abs_of_bytes(data: Option<Arc<Vec<u8>>>, allow_fat: bool) -> Abs {
     Abs::Single { sym, bin }
 }
 
+/// what looking for `DYLIB_PATH` in this file as a dyld shared cache yields (the real loaders decide)
+fn abs_of_dyld(data: Option<Arc<Vec<u8>>>) -> Abs {
+    let mut m = Mem::default();
+    if let Some(d) = data {
+        m.files.insert("x".into(), d);
+    }
+    m.dyld_caches.push("x".into());
+    let sm = SymbolManager::with_helper(m);
+    let sym = match catch_unwind(AssertUnwindSafe(|| block(sm.load_symbol_map_for_dyld_cache_image(DYLIB_PATH, None)))) {
+        Ok(Ok(map)) => Res::Ok(did(&map.debug_id())),
+        Ok(Err(Error::HelperErrorDuringOpenFile(..))) => Res::Open,
+        _ => Res::Parse,
+    };
+    let bin = match catch_unwind(AssertUnwindSafe(|| block(sm.load_binary_for_dyld_cache_image(DYLIB_PATH, None)))) {
+        Ok(Ok(img)) => Res::Ok(format!("{}:{}", odid(&img.debug_id()), ocid(&img.code_id()))),
+        Ok(Err(Error::HelperErrorDuringOpenFile(..))) => Res::Open,
+        _ => Res::Parse,
+    };
+    Abs::Single { sym, bin }
+}
+
 fn abs_of(r: &str) -> Abs {
     static CACHE: OnceLock<Mutex<HashMap<String, Abs>>> = OnceLock::new();
     let m = CACHE.get_or_init(|| Mutex::new(HashMap::new()));
     if let Some(a) = m.lock().unwrap().get(r) {
         return a.clone();
     }
-    let a = abs_of_bytes(materialize(r), true);
+    let a = if r.starts_with("dyld:") { abs_of_dyld(materialize(r)) } else { abs_of_bytes(materialize(r), true) };
     m.lock().unwrap().insert(r.to_string(), a.clone());
     a
 }
@@ -638,6 +677,10 @@ fn exec_symmap(ops: &[String], stats: &mut Stats) -> Vec<String> {
             mem.files.insert(name.clone(), d);
         }
         stats.bump(&format!("symmap_cand_{}", cw[2].split(':').next().unwrap_or("")));
+        if cw[1].starts_with("dyld:") {
+            stats.bump("symmap_cand_in_dyld_cache");
+            mem.in_dyld.insert(name.clone());
+        }
         mem.debug_cands.push(name);
     }
     stats.bump(&format!("symmap_ncands_{}", (ops.len() - 1).min(9)));
@@ -708,6 +751,45 @@ fn exec_symidx(ops: &[String], stats: &mut Stats) -> Vec<String> {
     }
 }
 
+/// `dyld <sym|bin> <disamb>` then `cache <ref> <view>`*: `load_symbol_map_for_dyld_cache_image` /
+/// `load_binary_for_dyld_cache_image` over the cache paths the helper names
+fn exec_dyld(ops: &[String], stats: &mut Stats) -> Vec<String> {
+    let w: Vec<&str> = ops[0].split_whitespace().collect();
+    if w.len() < 3 {
+        return vec!["bad-op".into()];
+    }
+    let dis = match parse_disamb(w[2]) {
+        Some(d) => d,
+        None => return vec!["bad-op".into()],
+    };
+    let mut mem = Mem::default();
+    for (k, l) in ops[1..].iter().enumerate() {
+        let cw: Vec<&str> = l.split_whitespace().collect();
+        if cw.len() < 3 || cw[0] != "cache" {
+            return vec!["bad-op".into()];
+        }
+        let name = format!("cache{k}");
+        if let Some(d) = materialize(cw[1]) {
+            mem.files.insert(name.clone(), d);
+        }
+        stats.bump(&format!("dyld_cache_{}", cw[2].split(':').next().unwrap_or("")));
+        mem.dyld_caches.push(name);
+    }
+    stats.bump(&format!("dyld_{}_{}", w[1], w[2].split(':').next().unwrap_or("")));
+    let sm = SymbolManager::with_helper(mem);
+    if w[1] == "sym" {
+        match block(sm.load_symbol_map_for_dyld_cache_image(DYLIB_PATH, dis)) {
+            Ok(map) => vec![format!("ok {}", did(&map.debug_id()))],
+            Err(e) => vec![format!("err {}", err_kind(&e))],
+        }
+    } else {
+        match block(sm.load_binary_for_dyld_cache_image(DYLIB_PATH, dis)) {
+            Ok(img) => vec![format!("ok {}", odid(&img.debug_id()))],
+            Err(e) => vec![format!("err {}", err_kind(&e))],
+        }
+    }
+}
+
 /// `side=` of a sidecar: what the real `BreakpadIndex::parse_symindex_file` says about it
 fn side_view(idx: &str) -> String {
     match materialize(idx) {
@@ -740,6 +822,10 @@ fn exec_binary(ops: &[String], stats: &mut Stats) -> Vec<String> {
             mem.files.insert(name.clone(), d);
         }
         stats.bump(&format!("binary_cand_{}", cw[2].split(':').next().unwrap_or("")));
+        if cw[1].starts_with("dyld:") {
+            stats.bump("binary_cand_in_dyld_cache");
+            mem.in_dyld.insert(name.clone());
+        }
         mem.bin_cands.push(name);
     }
     stats.bump(&format!("binary_by_{}", if info.debug_id.is_some() { "debugid" } else if info.code_id.is_some() { "codeid" } else { "nothing" }));
@@ -868,6 +954,7 @@ impl Prop for C06 {
         let r = catch_unwind(AssertUnwindSafe(|| match kind.as_str() {
             "symmap" => exec_symmap(ops, stats),
             "symidx" => exec_symidx(ops, stats),
+            "dyld" => exec_dyld(ops, stats),
             "binary" => exec_binary(ops, stats),
             "fat" => exec_fat(ops, stats),
             "debuglink" | "sup" | "pdb" => exec_companion(&kind, ops, stats),
@@ -1586,6 +1673,45 @@ mod families {
         }
     }
 
+    // ----- dyld shared cache paths (no generator for real caches: every path fails to load) ---------
+
+    fn gen_dyld(seed: u64, out: &mut Vec<Case>) {
+        let i = ids(seed);
+        let files = ["dyld:missing".to_string(), "dyld:raw:64796c645f763120".to_string(), format!("dyld:{}", i.m), format!("dyld:macho:arch=x86_64;u={};m=m", i.uuid), "dyld:raw:".to_string()];
+        let lines: Vec<String> = files.iter().map(|r| format!("cache {r} {}", abs_of(r).sym_view())).collect();
+        let blines: Vec<String> = files.iter().map(|r| format!("cache {r} {}", abs_of(r).bin_view())).collect();
+        for what in ["sym", "bin"] {
+            let ls = if what == "sym" { &lines } else { &blines };
+            for d in ["none".to_string(), "arch:x86_64".to_string(), format!("id:{}", i.req), "native".to_string()] {
+                let dn = d.replace(|c: char| !c.is_ascii_alphanumeric(), "");
+                let hd = format!("dyld {what} {d}");
+                out.push(Case { name: format!("dyld{seed}-{what}-{dn}-empty"), ops: vec![hd.clone()] });
+                for k in 1..=2 {
+                    for a in arrangements(ls.len(), k) {
+                        let mut ops = vec![hd.clone()];
+                        for &v in &a {
+                            ops.push(ls[v].clone());
+                        }
+                        out.push(Case { name: format!("dyld{seed}-{what}-{dn}-{}", a.iter().map(|v| v.to_string()).collect::<String>()), ops });
+                    }
+                }
+            }
+        }
+        // the same files as `InDyldCache` candidates inside the candidate loops of load_symbol_map / load_binary
+        let c0 = "dyld:missing".to_string();
+        let c1 = "dyld:raw:64796c645f763120".to_string();
+        let c2 = format!("dyld:{}", i.m);
+        let d_last = format!("elf:b={};m=d_last", hex(&flip(&i.b, 15)));
+        let set: Vec<String> = [&c0, &i.m, &c1, &d_last, &c2].iter().map(|r| cand_sym(r)).collect();
+        perm_cases(&format!("sm{seed}-indyld"), &format!("symmap {}", i.req), &set, out);
+        let set: Vec<String> = [&c0, &c1, &d_last].iter().map(|r| cand_sym(r)).collect();
+        perm_cases(&format!("sm{seed}-indyld-nomatch"), &format!("symmap {}", i.req), &set, out);
+        let (mid, mcode) = bin_ids(&i.m);
+        let bset: Vec<String> = [&c0, &i.m, &c1, &d_last].iter().map(|r| cand_bin(r)).collect();
+        perm_cases(&format!("bin{seed}-indyld-id"), &format!("binary name=1 id={mid} code=none arch=none"), &bset, out);
+        perm_cases(&format!("bin{seed}-indyld-code"), &format!("binary name=0 id=none code={mcode} arch=x86_64"), &bset, out);
+    }
+
     // ----- debuglink companions larger than one CRC chunk (elf.rs:186) ----------------------------
 
     fn gen_dlbig(tier: Tier, out: &mut Vec<Case>) {
@@ -1839,6 +1965,7 @@ mod families {
             gen_debuglink(seed, &mut out);
             gen_sup(seed, &mut out);
             gen_symidx(seed, tier, &mut out);
+            gen_dyld(seed, &mut out);
         }
         gen_dlbig(tier, &mut out);
         for (tag, req, set) in fixture_symmap_sets() {
